@@ -291,11 +291,6 @@ Proof. destruct p; simpl; auto. apply wf_expand. Qed.
 (* ------------------------------------------------------------------------------------------ *)
 (** * infer_type *)
 
-Definition strict_o (o : order) : bool := max_class_len o =? 1.
-Definition complete_o (na : N) (o : order) : bool := N.eqb (N.of_nat (ballot_size o)) na.
-Definition type_code (strict complete : bool) : dt :=
-  if strict then (if complete then Soc else Soi) else (if complete then Toc else Toi).
-
 Lemma infer_loop_spec na os : forall st co,
   (forall o, In o os -> o <> []) -> st || co = true ->
   infer_loop na os st co =
